@@ -60,6 +60,7 @@ def cases(tier, seed):
     for layer in ("retry", "throttle", "poll", "timeout", "map"):
         for op in ("submit", "complete", "cancel", "fail"):
             out.append({"name": "metrics.sweep/%s/%s" % (layer, op), "kind": "sweep", "layer": layer, "op": op, "cap": cap})
+    out.append({"name": "metrics.sweep-worker/timeout", "kind": "wsweep", "cap": 40 if tier == "quick" else None})
     out.append({"name": "metrics.engaged", "kind": "engaged"})
     return out
 
@@ -348,6 +349,50 @@ class MScenario(object):
             res.key("sweep", self.case["name"], info.get("site"))
 
 
+class TWScenario(object):
+    """The timeout thread is suspended (as if busy) while the owner cancels another future and that
+    future's deadline passes: the timeout counter must only count cancels the timeout really caused."""
+
+    def __init__(self, case):
+        self.case = case
+
+    def setup(self):
+        ctx = Ctx()
+        n0 = len(instr.TRACKED)
+        w = MW(ctx, ["timeout"], 0)
+        ctx.w = w
+        ctx.threads = [t for t in instr.TRACKED[n0:]]
+        w.submit()
+        instr.advance(1.0)
+        w.submit()   # deadline one second after the first one's
+        instr.advance(0.05)
+        return ctx
+
+    def victim_role(self, ctx):
+        return ctx.threads[-1].vf_role
+
+    def start_victim(self, ctx):
+        from .c04 import fire_next_timer
+        return ctx.actor("T", fire_next_timer).go()   # first deadline: the worker starts cancelling A
+
+    def intervene(self, ctx):
+        w = ctx.w
+        w.futs[1]["f"].cancel()            # the owner cancels B ...
+        with instr.CV:
+            instr.CLOCK.now += 2.0         # ... and B's deadline passes while the worker is still busy
+            instr.CV.notify_all()
+
+    def finish(self, ctx):
+        instr.advance(5.0)
+
+    def oracle(self, ctx, res, info):
+        w = ctx.w
+        w.timeouts = count_timeouts(w)
+        w.compare(res, "%s placement=%s" % (self.case["name"], info.get("site")), final=True)
+        if info.get("hit"):
+            res.key("wsweep", info.get("site"))
+
+
 def run_engaged(case, res):
     """The metrics code must really be the prometheus variant (engagement gate)."""
     begin("rt")
@@ -373,6 +418,9 @@ def run_case(case, res):
         run_stack(case, res)
     elif k == "engaged":
         run_engaged(case, res)
+    elif k == "wsweep":
+        rng = random.Random("c20w/%s" % case["seed"])
+        Sweep(TWScenario(case), res, "vt", case["name"]).run(case["cap"], rng, per_site=3)
     else:
         rng = random.Random("c20/%s/%s" % (case["seed"], case["name"]))
         Sweep(MScenario(case), res, "vt", case["name"]).run(case["cap"], rng, per_site=2)
